@@ -212,6 +212,9 @@ theorem frame_contextsCall {s : State} (h : WF s) : Frame s s.contextsCall.1 := 
 theorem contextsCall_ns (s : State) : s.contextsCall.1.ns = s.ns := by
   rw [contextsCall_fst]
 
+theorem contextsCall_base (s : State) : s.contextsCall.1.dgBase = s.dgBase := by
+  rw [contextsCall_fst]
+
 def State.setNs (s : State) (k : List Nat) : State := { s with ns := k }
 
 /-- `b` is `a` with (possibly) more prefix bindings and nothing else changed -/
@@ -221,25 +224,26 @@ structure NsExt (a b : State) : Prop where
   union : b.defaultUnion = a.defaultUnion
   isDataset : b.isDataset = a.isDataset
   dname : b.dname = a.dname
+  base : b.dgBase = a.dgBase
   mono : ∀ n ∈ a.ns, n ∈ b.ns
 
-theorem NsExt.refl (a : State) : NsExt a a := ⟨rfl, rfl, rfl, rfl, rfl, fun _ h => h⟩
+theorem NsExt.refl (a : State) : NsExt a a := ⟨rfl, rfl, rfl, rfl, rfl, rfl, fun _ h => h⟩
 
 theorem NsExt.of_eq {a b : State} (h : b = a) : NsExt a b := h ▸ NsExt.refl a
 
 theorem NsExt.trans {a b c : State} (h1 : NsExt a b) (h2 : NsExt b c) : NsExt a c :=
   ⟨h2.quads.trans h1.quads, h2.known.trans h1.known, h2.union.trans h1.union,
-   h2.isDataset.trans h1.isDataset, h2.dname.trans h1.dname, fun n hn => h2.mono n (h1.mono n hn)⟩
+   h2.isDataset.trans h1.isDataset, h2.dname.trans h1.dname, h2.base.trans h1.base, fun n hn => h2.mono n (h1.mono n hn)⟩
 
 theorem NsExt.eq_setNs {a b : State} (h : NsExt a b) : b = a.setNs b.ns := by
-  obtain ⟨h1, h2, h3, h4, h5, _⟩ := h
+  obtain ⟨h1, h2, h3, h4, h5, h6, _⟩ := h
   cases a; cases b
   simp only [State.setNs] at *
-  subst h1 h2 h3 h4 h5
+  subst h1 h2 h3 h4 h5 h6
   rfl
 
 theorem NsExt.setNs_of_sub {a : State} {k : List Nat} (h : ∀ n ∈ a.ns, n ∈ k) : NsExt a (a.setNs k) :=
-  ⟨rfl, rfl, rfl, rfl, rfl, h⟩
+  ⟨rfl, rfl, rfl, rfl, rfl, rfl, h⟩
 
 theorem NsExt.wf {a b : State} (h : NsExt a b) (hw : WF a) : WF b := by
   refine ⟨?_, ?_⟩
@@ -271,7 +275,7 @@ theorem NsExt.contextsCall_snd {a b : State} (h : NsExt a b) : b.contextsCall.2 
   rw [h.eq_setNs, contextsCall_setNs]
 
 theorem bindNs_nsExt (s : State) (n : Nat) : NsExt s (s.bindNs n) :=
-  ⟨rfl, rfl, rfl, rfl, rfl, fun m hm => by simp only [State.bindNs, mem_sinsert]; exact Or.inr hm⟩
+  ⟨rfl, rfl, rfl, rfl, rfl, rfl, fun m hm => by simp only [State.bindNs, mem_sinsert]; exact Or.inr hm⟩
 
 theorem getQName_nsExt (s : State) (nsOf : Nat → Option Nat) (gen : Bool) (t : Nat) :
     NsExt s (s.getQName nsOf gen t) := by
